@@ -181,6 +181,23 @@ fn gen_c01(rng: &mut Prng, seed: u64, thorough: bool) -> Trace {
         if rng.chance(1, 2) {
             steps.push(Step::Deliver { msg, node: rng.usize_below(nodes), via: 1, alter: Alter::None, roots: Roots::Window, reader: ReadPlan::clean() });
         }
+        // honest traffic does not travel alone: a refused proving request on the publisher's node and a few broken deliveries
+        // (garbage, a torn copy, a copy whose stream fails) at a receiver, then the same honest message once more - whatever an
+        // instance keeps between calls, a failed call must not leave anything behind that makes the next honest one fail
+        if rng.chance(1, 2) {
+            let m = members[member].clone();
+            let bad_id = m.limit;
+            steps.push(Step::Prove { node, entry: rng.below(2) as u8, secret: m.secret, index: m.index as u64, limit: m.limit, id: bad_id, ext: gen_ext(rng), signal: gen_signal(rng),
+                path_len: -1, dir_tweak: -1, truncate: if rng.chance(1, 2) { rng.below(150) as i64 } else { -1 }, reader: ReadPlan::clean(), writer: WritePlan::clean() });
+            let victim = rng.usize_below(nodes);
+            let via = rng.below(3) as u8;
+            steps.push(Step::Deliver { msg, node: victim, via, alter: Alter::Raw { bytes: { let k = *rng.pick(&[0usize, 127, 288, 300]); rng.bytes(k) } }, roots: Roots::Exact, reader: ReadPlan::clean() });
+            steps.push(Step::Deliver { msg, node: victim, via, alter: Alter::Truncate { len: rng.usize_below(288) }, roots: Roots::Exact, reader: ReadPlan::clean() });
+            let mut failing = ReadPlan::clean();
+            failing.fail_at = Some(rng.usize_below(280));
+            steps.push(Step::Deliver { msg, node: victim, via, alter: Alter::None, roots: Roots::Exact, reader: failing });
+            steps.push(Step::Deliver { msg, node: victim, via, alter: Alter::None, roots: Roots::Exact, reader: ReadPlan::clean() });
+        }
         msg += 1;
     }
     // prove - mutate - prove again: the same member on the same node, with membership changes of every API shape
